@@ -112,6 +112,8 @@ structure U (α : Type) where
   freeze : Bool := false
   p2 : Bool := false
   bext : Bool := false       -- carries a modifier with the BREAK_EXTEND flag
+  dis : Bool := false        -- carries a modifier with the DISABLE_ACTION flag only (no STAT_CTRL)
+  counter : Bool := false    -- carries a modifier whose OnBeforeBeingAttacked listener strikes the attacker
 
 inductive TaskKind
   | action (target : Int)
@@ -234,11 +236,26 @@ def hit (cfg : Cfg) (s : S α) (src tgt : Int) : S α :=
 
 def qualified (atype : Nat) : Bool := atype != 4 && atype != 5 && atype != 9
 
+/-- does unit `t` strike back when an attack on it is announced -/
+def counterOn (s : S α) (t : Int) : Bool :=
+  match unitOf s t with
+  | some u => u.counter
+  | none => false
+
+/-- what the listeners of `AttackStart` do: every announced target that carries the counter modifier
+(once per mention) and is alive attacks the attacker — an `Attack` call made while the announcing
+attack already counts as open, so it opens no bracket of its own and is just its hit (`hit` does not
+look at `inAttack`, which is why the field can be set after these hits here) -/
+def counters (cfg : Cfg) (s : S α) (src : Int) (targets : List Int) : S α :=
+  targets.foldl (fun s t => if counterOn s t && isAlive s t then hit cfg s t src else s) s
+
 /-- `combat.Attack` -/
 def attack (cfg : Cfg) (s : S α) (src : Int) (targets : List Int) (atype : Nat) : S α :=
   if targets.isEmpty || !isAlive s src then s
   else
-    let s1 := if s.inAttack.isNone && qualified atype then emit { s with inAttack := some (src, atype) } (.attackStart src atype) else s
+    -- the announcement is logged when its listeners are done: the counter hits come first in the stream
+    let s1 := if s.inAttack.isNone && qualified atype then
+        emit { counters cfg s src targets with inAttack := some (src, atype) } (.attackStart src atype) else s
     targets.foldl (fun s t => hit cfg s src t) s1
 
 /-- `combat.EndAttack` -/
@@ -296,6 +313,8 @@ def addMod (u : U α) (k : Int) (src : Int) : U α :=
   else if k == 1 then (if u.dot.isSome then u else { u with dot := some src })
   else if k == 2 then { u with freeze := true }
   else if k == 4 then { u with bext := true }
+  else if k == 5 then { u with dis := true }
+  else if k == 6 then { u with counter := true }
   else { u with p2 := true }
 
 def rmMod (u : U α) (k : Int) : U α :=
@@ -303,6 +322,8 @@ def rmMod (u : U α) (k : Int) : U α :=
   else if k == 1 then { u with dot := none }
   else if k == 2 then { u with freeze := false }
   else if k == 4 then { u with bext := false }
+  else if k == 5 then { u with dis := false }
+  else if k == 6 then { u with counter := false }
   else { u with p2 := false }
 
 /-- `InsertAction` -/
@@ -464,7 +485,7 @@ def queueLoop (cfg : Cfg) : Nat → S α → S α
       if (exitReason cfg s).isSome then exitCheck cfg s
       -- tasks of units that died (or were removed from the field as dead) are dropped
       else if lifeOf s t.src == 1 || !(s.chars.contains t.src || s.enemies.contains t.src) then queueLoop cfg f { s with queue := q }
-      else if t.abort && (match unitOf s t.src with | some u => u.freeze | none => false) then queueLoop cfg f { s with queue := q }
+      else if t.abort && (match unitOf s t.src with | some u => u.freeze || u.dis | none => false) then queueLoop cfg f { s with queue := q }
       else
         let s1 := exitCheck cfg (deathCheck (execTask cfg { s with queue := q } t) false)
         if stopped s1 then s1
@@ -508,7 +529,7 @@ def phase2 (cfg : Cfg) (fuel : Nat) (s : S α) : S α :=
 for an enemy with the BREAK_EXTEND flag -/
 def skipsAction (cfg : Cfg) (s : S α) (id : Int) : Bool :=
   match unitOf s id with
-  | some u => u.freeze || (u.bext && !isCharId cfg id)
+  | some u => u.freeze || u.dis || (u.bext && !isCharId cfg id)
   | none => false
 
 /-- one turn: `beginTurn`, `phase1`, `action`, `phase2`, `endTurn` -/
